@@ -241,7 +241,10 @@ class Ranges:
             return self
         it = range(min(r['n1'] for r in rng), max(r['n2'] for r in rng) + 1)
         it = ['{0}:{0}'.format(_index2col(c)) for c in it]
-        spl = (self & Ranges().pushes(it))._merge()
+        cols = Ranges()  # The columns of every sheet involved.
+        for sheet_id in sorted({r['sheet_id'] for r in rng}):
+            cols.pushes(it, context={'sheet_id': sheet_id})
+        spl = (self & cols)._merge()
         return spl
 
     def _merge(self):
